@@ -22,12 +22,107 @@ def _is_neg(s):
     return s.startswith("neg(")
 
 
+def _split_top(s):
+    """top-level comma split of the inside of `array[...]`"""
+    out, depth, cur = [], 0, ""
+    for ch in s:
+        if ch in "([{":
+            depth += 1
+        elif ch in ")]}":
+            depth -= 1
+        if ch == "," and depth == 0:
+            out.append(cur.strip())
+            cur = ""
+        else:
+            cur += ch
+    if cur.strip():
+        out.append(cur.strip())
+    return out
+
+
+_ENUM_EV = re.compile(r"^([\w:]+)::(\w+)\{0: (.*)\}$")
+
+
+def _ev_pair(a, b):
+    """(a, b) are the start and the end event of one group: (+i, -i), or two variants of one enum with one payload"""
+    if b == "neg(%s)" % a and not _is_neg(a):
+        return True
+    ma, mb = _ENUM_EV.match(a), _ENUM_EV.match(b)
+    return bool(ma and mb and ma.group(1) == mb.group(1) and ma.group(3) == mb.group(3) and ma.group(2) != mb.group(2))
+
+
+def _list_edits(effects):
+    """The edits a path makes to lists, in order: (list id, list as rendered, position, value, kind) with kind
+    'append' (push, extend, insert at the list's current length) or 'at' (insert / splice at an index)."""
+    out = []
+    for e in effects:
+        if e[0] != "call":
+            continue
+        nm = e[1].split("::")[-1]
+        raw = [render(x) for x in e[2]]
+        args = [_sh(strip_ver(x)) for x in raw]
+        if nm == "push" and len(args) == 2:
+            out.append((args[0], raw[0], None, args[1], "append"))
+        elif nm == "insert" and len(args) == 3:
+            kind = "append" if raw[1] == "len(%s)" % raw[0] else "at"
+            out.append((args[0], raw[0], raw[1], args[2], kind))
+        elif nm == "extend" and len(args) == 2 and args[1].startswith("array[") and args[1].endswith("]"):
+            for it in _split_top(args[1][6:-1]):
+                out.append((args[0], raw[0], None, it, "append"))
+        elif nm == "splice" and len(args) == 3 and args[2].startswith("array[") and args[2].endswith("]"):
+            # an empty range written p..p inserts; anything else replaces something
+            pos = None
+            pre = "Range::Range{start: "
+            if raw[1].startswith(pre) and raw[1].endswith("}"):
+                body = raw[1][len(pre):-1]
+                for k in range(len(body)):
+                    if body[k:k + 7] == ", end: " and body[:k] == body[k + 7:]:
+                        pos = body[:k]
+                        break
+            if pos is None:
+                out.append((args[0], raw[0], raw[1], args[2], "unknown"))
+                continue
+            kind = "append" if pos == "len(%s)" % raw[0] else "at"
+            items = _split_top(args[2][6:-1])
+            for k, it in enumerate(reversed(items)):
+                out.append((args[0], raw[0] if k == 0 else None, pos, it, kind if k == 0 else "at"))
+        elif nm in ("push_front", "remove", "swap", "truncate", "clear", "retain", "drain", "sort", "reverse", "append", "swap_remove", "pop") and args:
+            out.append((args[0], raw[0], None, nm, "unknown"))
+    return out
+
+
+def _run(edits):
+    """The adjacent run of values that a sequence of edits to one list leaves, in list order, and whether the run
+    sits at the end of the list; None if the edits are not known to be adjacent."""
+    run, at_end, anchor = [], False, None
+    for (_lid, lraw, pos, val, kind) in edits:
+        if kind == "unknown":
+            return None
+        if not run:
+            run, at_end, anchor = [val], kind == "append", pos
+            continue
+        if kind == "append" or (pos is not None and lraw is not None and pos == "len(%s)" % lraw):
+            if not at_end:
+                return None
+            run.append(val)
+        elif pos is not None and pos == anchor:
+            run.insert(0, val)  # at the index where the run starts: before it
+        elif pos is None:
+            return None
+        else:
+            return None
+    return run, at_end
+
+
 @rule("EVENT-ORDER", ["C03", "C05"], floor=4)
 def event_order(ctx):
-    """process_matching_substring builds, per offset, a list of group events (+i start, -i end) in which the start
-    event of a group precedes its end event: a non-empty group pushes +i at its start offset and inserts -i at the
-    front of its end offset (start < end); an empty group inserts -i and then +i at the same index of an existing
-    list, or creates the list [+i, -i]."""
+    """process_matching_substring builds, per offset, a list of group events in which the start event of a group
+    precedes its end event.  Stated over the *edits* the code makes to the lists (push / insert / extend / splice,
+    wherever they are written - in the function, in a helper, in a closure handed to the map's entry): a non-empty
+    group (start < end) appends its start event to the list of its start offset and puts its end event at the front
+    of the list of its end offset; an empty group leaves [start, end] adjacent - in a list of its own when the
+    offset has none, otherwise in the existing list, at the end unless the end event of its parent (nesting table)
+    is there.  The replay opens a group on a start event and closes one on an end event."""
     b = ctx.body(PMS)
     if b is None:
         return [missing(PMS)]
@@ -38,61 +133,132 @@ def event_order(ctx):
     if not gh:
         return [bad("loop", "no loop over the groups in process_matching_substring", b.loc())]
     h = min(gh, key=lambda x: len(loops[x]))
+    START = r"get_paren_start\(a1\.matcher, (?!0\))[^,]*?\) as Some\.0"
+    END = r"Option::unwrap\(get_paren_end\(a1\.matcher, [^,]*?\)\)"
+    # the comparison of the group's start with its end: absolute, or both relative to one and the same base
+    cmp_re = re.compile(r"^(!?)lt\((?:sub\((%s), (.+?)\), sub\((%s), (.+)\)|(%s), (%s))\)$" % (START, END, START, END))
+
+    def length_test(gs0):
+        for g in gs0:
+            m = cmp_re.match(g)
+            if m and (m.group(2) is None or m.group(3) == m.group(5)):
+                return m.group(1) != "!"
+        return None
+
+    closures = {x.path: x for x in ctx.f.bodies if x.path.startswith(PMS + "::{closure")}
+    cl_edits = {}  # closure path -> list of (run, at_end, found_parent, loc) per path with edits
+
+    def closure_runs(cp):
+        if cp in cl_edits:
+            return cl_edits[cp]
+        c = closures.get(cp)
+        res = []
+        if c is not None:
+            ctx.body(c.path)
+            seen = set()
+            for p in ctx.walk(c, max_visits=2).paths:
+                if p.end != "return":
+                    continue
+                ed = _list_edits(p.effects)
+                if not ed:
+                    continue
+                gs, _r = summarize(p)
+                found = any(re.match(r"^eq\(", strip_ver(g)) and "nesting_table" in g for g in gs)
+                key = (str([(e[2], e[3], e[4]) for e in ed]), found)
+                if key in seen:
+                    continue
+                seen.add(key)
+                res.append((ed, found, c.loc()))
+        cl_edits[cp] = res
+        return res
+
+    n_empty = 0
+    pairs_seen = set()
+
+    def note_pair(a, b_):
+        ma, mb = _ENUM_EV.match(a), _ENUM_EV.match(b_)
+        if ma and mb:
+            pairs_seen.add((ma.group(2), mb.group(2)))
+
     for p in ctx.walk(b, start_bb=h).paths:
+        if p.end != "loop:%d" % h:
+            continue  # only the turns of the loop over the groups (the replay that follows edits strings, not lists of events)
         gs, r = summarize(p)
         gs0 = [_sh(strip_ver(g)) for g in gs]
         loc = b.loc(p.blocks[-1])
         cs = [(e[1].split("::")[-1], [_sh(strip_ver(render(x))) for x in e[2]]) for e in p.effects if e[0] == "call"]
         names = [c[0] for c in cs]
-        ent = [c for c in cs if c[0] == "entry"]
-        if not ent:
+        ed = _list_edits(p.effects)
+        handed = [(c[0], m_.group(1)) for c in cs if c[0] in ("and_modify", "or_insert_with", "or_insert_with_key") for m_ in [re.match(r"^closure (?:[\w:<> ]*?)(process_matching_substring::\{closure#\d+\})", c[1][-1])] if m_]
+        handed = [(k, "analyze_string::AnalyzeIter::" + cp) for k, cp in handed]
+        handed_runs = [(k, cp, closure_runs(cp)) for k, cp in handed]
+        touched = bool(ed) or any(rs for _k, _cp, rs in handed_runs) or any(n in ("entry", "and_modify", "or_insert_with") for n in names)
+        if not touched:
             continue
-        nonempty = [g for g in gs0 if re.match(r"^!?lt\(sub\(get_paren_start\(a1\.matcher, .* as Some\.0\) as Some\.0, get_paren_start\(a1\.matcher, 0\) as Some\.0\), sub\(Option::unwrap\(get_paren_end\(", g)]
-        if not nonempty:
+        lt = length_test(gs0)
+        if lt is None:
             _rec(d, "length-test", False, "group events are created without comparing the group's start with its end", loc)
             continue
-        if not nonempty[-1].startswith("!"):
-            pu = [c for c in cs if c[0] == "push"]
-            ins = [c for c in cs if c[0] == "insert" and len(c[1]) == 3]
-            good = len(ent) == 2 and len(pu) == 1 and len(ins) == 1 and not _is_neg(pu[0][1][1]) and ins[0][1][1] == "0" and _is_neg(ins[0][1][2]) and ins[0][1][2] == "neg(%s)" % pu[0][1][1]
-            start_off = ent[0][1][1].startswith("sub(get_paren_start(") if ent else False
-            end_off = ent[1][1][1].startswith("sub(Option::unwrap(get_paren_end(") if len(ent) > 1 else False
-            _rec(d, "non-empty-group", good and start_off and end_off, "a non-empty group must push +i on the list of its start offset and insert -i at the front of the list of its end offset; calls %s" % [(c[0], c[1][1:]) for c in cs if c[0] in ("push", "insert")], loc)
-        else:
-            am = [c for c in cs if c[0] == "and_modify"]
-            oi = [c for c in cs if c[0] == "or_insert_with"]
-            _rec(d, "empty-group-uses-nesting", "get" in names and len(am) == 1 and len(oi) == 1, "an empty group must look up its parent in the nesting table and either modify the existing list or create one", loc)
-    # closures: the list for an empty group alone / inserted into an existing list
-    cl = [x for x in ctx.f.bodies if x.path.startswith(PMS + "::{closure")]
-    alone = modify = 0
-    for c in cl:
-        ctx.body(c.path)
-        for p in ctx.walk(c, max_visits=2).paths:
-            if p.end != "return":
-                continue
-            ev = [(e[1].split("::")[-1], [strip_ver(render(x)) for x in e[2]]) for e in p.effects if e[0] == "call" and e[1].split("::")[-1] in ("push", "insert")]
-            pushes = [e for e in ev if e[0] == "push"]
-            inserts = [e for e in ev if e[0] == "insert"]
-            if len(pushes) == 2 and not inserts:
-                alone += 1
-                a, bb_ = pushes[0][1][1], pushes[1][1][1]
-                _rec(d, "empty-group-alone", (not _is_neg(a)) and bb_ == "neg(%s)" % a, "an empty group at an offset without other events must be recorded as [+i, -i]; the closure builds [%s, %s]: the end event would pop the enclosing group (analyze 'a(b?)c' on 'ac' panicked)" % (a[:40], bb_[:40]), c.loc())
-            elif len(inserts) == 2 and not pushes:
-                modify += 1
-                (i1, v1), (i2, v2) = (inserts[0][1][1], inserts[0][1][2]), (inserts[1][1][1], inserts[1][1][2])
-                _rec(d, "empty-group-in-list", i1 == i2 and _is_neg(v1) and v1 == "neg(%s)" % v2, "an empty group must be inserted as +i immediately followed by -i (insert -i, then +i, at the same index); found insert(%s,%s) insert(%s,%s)" % (i1[:20], v1[:30], i2[:20], v2[:30]), c.loc())
-    _rec(d, "closure-alone-present", alone >= 1, "the or_insert_with closure building [+i, -i] was not found", b.loc())
-    _rec(d, "closure-modify-present", modify >= 1, "the and_modify closure inserting (+i, -i) was not found", b.loc())
-    # the event loop: positive -> on_group_start(nr), negative -> on_group_end
+        _rec(d, "length-test", True, "", loc)
+        if lt:
+            # non-empty group: +i appended at the start offset, -i first at the end offset; closures create empty lists only
+            extra = [cp for _k, cp, rs in handed_runs if rs]
+            at_start = [e for e in ed if re.search(START, e[0]) and not re.search(END, e[0])]
+            at_end = [e for e in ed if re.search(END, e[0])]
+            good = not extra and len(ed) == 2 and len(at_start) == 1 and len(at_end) == 1
+            if good:
+                s, e_ = at_start[0], at_end[0]
+                good = s[4] == "append" and e_[4] == "at" and e_[2] == "0" and _ev_pair(s[3], e_[3])
+                if good:
+                    note_pair(s[3], e_[3])
+            _rec(d, "non-empty-group", good, "a non-empty group must append its start event to the list of its start offset and put its end event at the front of the list of its end offset; edits %s" % [(e[0][-60:], e[2], e[3][-50:], e[4]) for e in ed], loc)
+            continue
+        # empty group
+        n_empty += 1
+        _rec(d, "empty-group-uses-nesting", any(c[0] == "get" and c[1] and c[1][0].endswith("nesting_table") for c in cs) or any("nesting_table" in g for g in gs0), "an empty group must look up its parent in the nesting table", loc)
+        seqs = []  # (where, edits, found_parent, loc, fresh list?)
+        if ed:
+            found = any(re.match(r"^eq\(", g) and "nesting_table" in g for g in gs0)
+            seqs.append(("function", ed, found, loc, False))
+        for k, cp, rs in handed_runs:
+            for (ced, found, cloc) in rs:
+                seqs.append((k, ced, found, cloc, k.startswith("or_insert")))
+        kinds = {s[0] for s in seqs}
+        covers = ("function" in kinds and not any(k.startswith("or_insert") for k in kinds if k != "function")) or ("and_modify" in kinds and any(k.startswith("or_insert") for k in kinds)) and "function" not in kinds
+        _rec(d, "empty-group-recorded", covers, "the events of an empty group must be recorded exactly once whether or not the offset already has a list (edits found in: %s)" % sorted(kinds), loc)
+        for where, ced, found, cloc, fresh in seqs:
+            lists = {}
+            for e in ced:
+                lists.setdefault(e[0], []).append(e)
+            for lid, es in lists.items():
+                rr = _run(es)
+                key = "empty-group-start-then-end"
+                if rr is None or len(rr[0]) != 2 or not _ev_pair(rr[0][0], rr[0][1]):
+                    _rec(d, key, False, "an empty group must leave its start event immediately followed by its end event; the edits %s leave %s: an end event first would close the enclosing group (analyze 'a(b?)c' on 'ac' panicked)" % ([(e[2], e[3][-40:], e[4]) for e in es], rr and [x[-40:] for x in rr[0]]), cloc)
+                    continue
+                _rec(d, key, True, "", cloc)
+                note_pair(rr[0][0], rr[0][1])
+                if not fresh and not found:
+                    _rec(d, "empty-group-after-existing-events", rr[1], "when the end event of the parent group is not in the list, the events of an empty group go after all existing events of the offset; they are inserted at %s" % es[0][2], cloc)
+    if not n_empty:
+        _rec(d, "empty-group-recorded", False, "no path handles a group whose start equals its end", b.loc())
+    # the event loop: a start event opens a group (on_group_start), an end event closes one (on_group_end)
     st = call_sites(b, lambda r: r == "analyze_string::RegexMatchHandler::on_group_start")
     en = call_sites(b, lambda r: r == "analyze_string::RegexMatchHandler::on_group_end")
     se = ctx.senv(b)
     ok_pol = len(st) == 1 and len(en) == 1
     if ok_pol:
-        g1 = guard_strings(b, st[0][0], se)
-        g2 = guard_strings(b, en[0][0], se)
-        ok_pol = any(re.match(r"^lt\(0, ", g) for g in g1) and any(re.match(r"^!lt\(0, ", g) for g in g2)
-    _rec(d, "event-polarity", ok_pol, "a positive event must open a group (on_group_start) and a non-positive one close it (on_group_end)", b.loc())
+        g1 = [strip_ver(g) for g in guard_strings(b, st[0][0], se)]
+        g2 = [strip_ver(g) for g in guard_strings(b, en[0][0], se)]
+        sign = any(re.match(r"^lt\(0, ", g) for g in g1) and any(re.match(r"^!lt\(0, ", g) for g in g2)
+        v1 = [m.group(1) for g in g1 for m in [re.match(r"^variant\(.*\)=(\w+)$", g)] if m and "next(" in g]
+        v2 = [m.group(1) for g in g2 for m in [re.match(r"^variant\(.*\)=(\w+)$", g)] if m and "next(" in g]
+        # with an enum the variant that opens must be the one recorded as the start event
+        v1 = [x for x in v1 if x not in ("Some", "None")]
+        v2 = [x for x in v2 if x not in ("Some", "None")]
+        enum_ok = len(v1) == 1 and len(v2) == 1 and (v1[0], v2[0]) in pairs_seen
+        ok_pol = sign or enum_ok
+    _rec(d, "event-polarity", ok_pol, "a start event must open a group (on_group_start) and an end event close it (on_group_end)", b.loc())
     return _emit(d)
 
 
@@ -118,15 +284,30 @@ def nesting_scanner(ctx):
         if not p.end.startswith("loop") or len(gs0) < 2:
             continue
         m = re.match(r"(?s)^a1\[(uninit\(\d+\))\]=(?:'(.)'|other)$", gs0[1])
-        if not m:
+        mi = re.match(r"(?s)^((?:<Enumerate<I> as Iterator>::)?next\((uninit\(\d+\))\) as Some\.0)\.1=(?:'(.)'|other)$", gs0[1])
+        if not m and not mi:
             continue
-        I = m.group(1)
-        il = int(I[7:-1])
-        ch = m.group(2) or "other"
         loc = b.loc(p.blocks[-1])
         env = {l: strip_ver(render(v)) for l, v in p.env.items() if v != ("uninit", l) and b.locals[l].get("name")}
-        newi = env.get(il)
-        others = {l: v for l, v in env.items() if l != il and b.locals[l]["ty"] in ("usize", "i32", "isize")}
+        if m:
+            # the cursor is an index into the pattern
+            I = m.group(1)
+            il = int(I[7:-1])
+            ch = m.group(2) or "other"
+            newi = env.get(il)
+        else:
+            # the cursor is an enumerating iterator over the pattern: the element it delivers is (index, character),
+            # and every further next() in the turn moves the cursor on by one
+            I = mi.group(1) + ".0"
+            itl = int(mi.group(2)[7:-1])
+            il = itl
+            ch = mi.group(3) or "other"
+            nx = [e for e in p.effects if e[0] == "call" and e[1].split("::")[-1] == "next" and e[2] and strip_ver(render(e[2][0])) == mi.group(2)]
+            newi = "add(%d, %s)" % (len(nx), I) if nx else None
+            src = strip_ver(show(_origin(b, ctx.senv(b), itl)))
+            if not re.search(r"enumerate\((?:[\w:<> ,]*iter\()?a1\)*$", src):
+                _rec(d, "scan-source", False, "the scan must enumerate the pattern itself from its start; it walks %s" % src[:100], loc)
+        others = {l: v for l, v in env.items() if l != il and b.locals[l]["ty"] in ("usize", "i32", "isize") and not (mi and v.startswith(mi.group(1)))}
         ins = [e for e in p.effects if e[0] == "call" and e[1].endswith("::insert")]
         seen.add(ch)
         if ch == "\\":
@@ -170,6 +351,15 @@ def nesting_scanner(ctx):
         if not p.end.startswith("loop") or len(gs0) < 3 or not re.match(r"^!?eq\(0, uninit\(\d+\)\)$", gs0[2]) or gs0[2].startswith("!"):
             continue
         m = re.match(r"(?s)^a1\[(uninit\(\d+\))\]='(.)'$", gs0[1])
+        if not m:
+            mi = re.match(r"(?s)^((?:<Enumerate<I> as Iterator>::)?next\(uninit\(\d+\)\) as Some\.0)\.1='(.)'$", gs0[1])
+            if mi:
+                class _M:  # the index and the character delivered by the enumerating iterator
+                    def __init__(self, a, c):
+                        self.a, self.c = a, c
+                    def group(self, n):
+                        return self.a if n == 1 else self.c
+                m = _M(mi.group(1) + ".0", mi.group(2))
         if not m or m.group(2) not in "()":
             continue
         loc = b.loc(p.blocks[-1])
@@ -269,6 +459,26 @@ def analyze_flush(ctx):
     h = max(hs, key=lambda x: len(loops[x]))
     se = ctx.senv(b)
     n = 0
+
+    def pending(gs, last=False):
+        """is text known to be pending on this path?  The pending text is an Option<String> (Some = pending) or a
+        String (non-empty = pending); the first test of it on the path decides (the last one for the tail)."""
+        found = []
+        for g in gs:
+            if g.startswith("variant(Option::take("):
+                found.append(g.endswith("=Some"))
+                continue
+            mm = re.match(r"^variant\((?:ref\()?uninit\((\d+)\)\)?\)=(Some|None)$", g)
+            if mm and strip_lt(b.locals[int(mm.group(1))]["ty"]).startswith("std::option::Option<std::string::String>"):
+                found.append(mm.group(2) == "Some")
+                continue
+            mm = re.match(r"^(!?)eq\(0, len\((?:uninit\((\d+)\)|String::new\(\))\)\)$", g)
+            if mm and (mm.group(2) is None or strip_lt(b.locals[int(mm.group(2))]["ty"]) == "std::string::String"):
+                found.append(mm.group(1) == "!")
+        if not found:
+            return None
+        return found[-1] if last else found[0]
+
     for p in checked(d, "flush-loop", b, ctx.walk(b, start_bb=h, max_visits=1).paths):
         gs, r = summarize(p)
         gs = [strip_ver(g) for g in gs]
@@ -283,14 +493,7 @@ def analyze_flush(ctx):
         src = strip_ver(show(_origin(b, se, it)))
         _rec(d, "scan-by-char-offset", src.endswith("into_iter(RangeInclusive::new(0, len(a2)))"), "the flush loop must scan the character offsets 0..=len(match) (the unit of the event keys); it scans %s" % src[:120], loc)
         if nx[0].endswith("=None"):
-            tk = [g for g in gs if g.startswith("variant(Option::take(")]
-            if not tk:
-                # the pending text tested without take(): `if let Some(text) = buf`
-                for g in gs:
-                    mm = re.match(r"^variant\((?:ref\()?uninit\((\d+)\)\)?\)=(Some|None)$", g)
-                    if mm and strip_lt(b.locals[int(mm.group(1))]["ty"]).startswith("std::option::Option<std::string::String>"):
-                        tk.append(g)
-            if tk and tk[-1].endswith("=Some"):
+            if pending(gs, last=True):
                 _rec(d, "tail-flushed", any(c[0] == "characters" for c in cs), "text still pending when the scan ends is not handed to the handler", loc)
             else:
                 _rec(d, "tail-empty", not any(c[0] == "characters" for c in cs), "", loc)
@@ -300,9 +503,8 @@ def analyze_flush(ctx):
         _rec(d, "lookup-by-scan-offset", len(get) == 1 and get[0][1][1] == I, "the events must be looked up at the scanned offset; found %s" % [c[1][1:] for c in get], loc)
         found = any(g.startswith("variant(HashMap::get(") and g.endswith("=Some") for g in gs)
         if found:
-            tk = [g for g in gs if g.startswith("variant(Option::take(")]
             names = [c[0] for c in cs]
-            if tk and tk[0].endswith("=Some"):
+            if pending(gs):
                 ev = [i for i, x in enumerate(names) if x in ("on_group_start", "on_group_end")]
                 ch = [i for i, x in enumerate(names) if x == "characters"]
                 _rec(d, "pending-text-before-events", bool(ch) and (not ev or ch[0] < ev[0]), "pending text must be handed to the handler before the events of the offset are dispatched", loc)
